@@ -31,7 +31,8 @@ RULE = ('corpus; exhaustive 2x2 matrices with votes 0..2, 1..3 seats, both divis
         'zero cells 0-50 % (stored as 0 or left out of the district dictionary), tiny (0..3), medium (1..300), large (10^6+) and mixed '
         'counts, D\'Hondt and Sainte-Lague, seats as a total, a per-district dictionary (derived from another apportionment, or a random '
         'composition that is sometimes infeasible) or through a custom apportioner (largest remainder, the other divisor, a uniform int); '
-        'a boundary stream of matrices with repeated columns / rows (ties inside the initial column-wise solution). The all-zero matrix '
+        'a boundary stream of matrices with repeated columns / rows (ties inside the initial column-wise solution); a same-labels stream '
+        '(districts and parties both labelled 0..k-1: equal labels on both sides, one of them falsy). The all-zero matrix '
         'is left out. Instances whose party or district apportionment is tied are outside the quantifier and only counted. '
         'non-trivial = at least one transfer or multiplier update happened (trace longer than one state) or the call was refused; '
         'distinct by case hash')
@@ -51,12 +52,27 @@ SCALE = {1: 1, 2: 2}
 QCONST = {1: Fraction(0), 2: Fraction(1, 2)}
 
 
+# label mode of the case being processed: 'std' = districts 'd01'.., parties 'A'.. ; 'ints' = districts AND parties are the
+# integers 0.. (the same labels on both sides, one of them falsy) - the evaluator keeps districts and parties as nodes of one graph,
+# so a result that depends on whether their labels coincide is a result that depends on names
+_LABELS = ['std']
+_cname_std, _cnum_std = cname, cnum
+
+
 def dname(k):
-    return 'd%02d' % k
+    return k - 1 if _LABELS[0] == 'ints' else 'd%02d' % k
 
 
 def dnum(name):
-    return int(name[1:])
+    return name + 1 if _LABELS[0] == 'ints' else int(name[1:])
+
+
+def cname(k):       # noqa: F811  (parties of this module follow the label mode)
+    return k - 1 if _LABELS[0] == 'ints' else _cname_std(k)
+
+
+def cnum(name):     # noqa: F811
+    return name + 1 if _LABELS[0] == 'ints' else _cnum_std(name)
 
 
 # ------------------------------------------------------------------ implementation side
@@ -251,6 +267,21 @@ BITS = ['district totals', 'party totals', 'no seat without votes / non-negative
 def judge(ctx, stream, cases, limit):
     """run the implementation on every case, then let the extracted checker decide"""
     import votelib.evaluate.core as core
+    cases = list(cases)
+    modes = sorted({c.get('labels', 'std') for c in cases})
+    if len(modes) > 1 or modes and modes[0] != _LABELS[0]:
+        tot = dict(cases=0, deviations=0)
+        for m in modes:
+            keep = _LABELS[0]
+            _LABELS[0] = m
+            try:
+                judge(ctx, stream, [c for c in cases if c.get('labels', 'std') == m], limit)
+            finally:
+                _LABELS[0] = keep
+            for k in tot:
+                tot[k] += ctx.streams[stream][k]
+        ctx.streams[stream] = tot
+        return
     runs, holds = [], []
     for c in cases:
         ctx.evaluations += 1
@@ -666,6 +697,7 @@ def explore(ctx, widen=1):
     ctx.exhaustive = False
     chunked(ctx, 'random', gen_random(ctx.rng, ctx.n(10000, 120000) * widen), limit)
     chunked(ctx, 'boundary', gen_boundary(ctx.rng, ctx.n(4000, 40000) * widen), limit)
+    chunked(ctx, 'same-labels', (dict(c, labels='ints') for c in gen_random(ctx.rng, ctx.n(2500, 30000) * widen, tiny_share=0.2)), limit)
     kw = dict(limit=10)
     ctx.differential('augment-step', gen_aug(ctx.rng, ctx.n(800, 8000)), aug_model_line, aug_impl, canon=aug_canon, **kw)
     ctx.differential('adj-coef', gen_adj(ctx.rng, ctx.n(1500, 15000)), adj_model_line, adj_impl, **kw)
